@@ -38,7 +38,7 @@ def unknown_producers(rng, da, x, v):
 
 
 def follow(rng, da, y, w):
-    op = rng.choice(["sum", "slice0", "add", "rechunk", "T", "concat", "len", "reshape", "take", "sort-free max", "cumsum", "index-int"])
+    op = rng.choice(["sum", "slice0", "add", "rechunk", "T", "concat", "len", "reshape", "take", "max", "cumsum", "index-int"])
     if op == "sum":
         return op, lambda: y.sum(), lambda: w.sum()
     if op == "slice0":
@@ -57,7 +57,7 @@ def follow(rng, da, y, w):
         return op, lambda: y.reshape(-1), lambda: w.reshape(-1)
     if op == "take":
         return op, lambda: da.take(y, [0], axis=0), lambda: np.take(w, [0], axis=0)
-    if op == "sort-free max":
+    if op == "max":
         return op, lambda: y.max(), lambda: w.max()
     if op == "cumsum":
         return op, lambda: da.cumsum(y, axis=0), lambda: np.cumsum(w, axis=0)
